@@ -47,6 +47,11 @@ static char genbuf[32];
 
 static program_t PROG; static char CODE[NCODE + 4]; static char *STRS[3]; static object_t *THIS; static object_t OBJ_LIVE, OBJ_DEAD;
 static svalue_t *sp_base; static int steps_done, post_ran;
+#ifdef CALL_INHERITED
+/* C07: a '::' call into one inherited program with one function (tables as the compiler lays them out, uncompressed) */
+static program_t PARENT; static compiler_function_t PFT[1]; static unsigned short PFLAGS[1]; static runtime_function_u POFF[1];
+static compressed_offset_table_t PCT; static inherit_t INH[1]; static char PCODE[8]; static int F0, V0;
+#endif
 /* ghost: holders of the universe values (C06) */
 static array_t *garr[3]; static buffer_t *gbuf[3]; static int gkind[3];
 
@@ -243,7 +248,14 @@ static void post_step (int from_error)
   VERIF_ASSERT ("C03.literal.pushes_exactly_the_encoded_value", !from_error && sp == sp_base + 1 && sp->type == T_NUMBER && sp->u.number == IN.num[0]);
 #endif
   VERIF_ASSERT ("VM.STACK.sp_inside_stack", sp >= start_of_stack - 1 && sp < end_of_stack + 5);
+#ifdef CALL_INHERITED
+  VERIF_ASSERT ("C07.call_inherited.runs_the_inherited_function", !from_error && current_prog == &PARENT && pc >= PCODE + 2 && pc <= PCODE + 4);
+  VERIF_ASSERT ("C07.call_inherited.function_offset_accumulates", function_index_offset == F0 + INH[0].function_index_offset);
+  VERIF_ASSERT ("C07.call_inherited.variable_offset_accumulates", variable_index_offset == V0 + INH[0].variable_index_offset);
+  VERIF_ASSERT ("C07.call_inherited.caller_frame_saved", csp->prog == &PROG && csp->function_index_offset == F0 && csp->variable_index_offset == V0);
+#else
   VERIF_ASSERT ("VM.STACK.pc_inside_program", pc >= PROG.program && pc <= PROG.program + NCODE + 1);
+#endif
   for (k = 0; k < 8; k++) { p = start_of_stack + k; if (p <= sp) VERIF_ASSERT ("VM.STACK.live_slots_have_valid_tags", valid_tag (p->type)); }
 #ifdef ORACLE_LVAL
   /* an element lvalue produced by the step points at an element of the indexed container */
@@ -341,6 +353,22 @@ void harness (void)
 #ifdef ORACLE_LIMIT
   /* the symbolic limits apply from here (the operands, built above, respect them by assumption) */
   CONFIG_INT (__MAX_ARRAY_SIZE__) = IN.limit[0]; CONFIG_INT (__MAX_BUFFER_SIZE__) = IN.limit[1]; CONFIG_INT (__MAX_STRING_LENGTH__) = IN.limit[2];
+#endif
+#ifdef CALL_INHERITED
+  __CPROVER_assume (IN.code[1] == 0 && IN.code[2] == 0 && IN.code[3] == 0 && IN.code[4] == 0);     /* inherit 0, function 0, no arguments */
+  CODE[1] = CODE[2] = CODE[3] = CODE[4] = 0;
+#ifdef CI_OFFS
+  { static const int o[4] = { CI_OFFS }; int q; for (q = 0; q < 4; q++) { __CPROVER_assume (IN.limit[q] == o[q]); IN.limit[q] = o[q]; } }      /* concrete offsets per run */
+#endif
+  __CPROVER_assume (IN.limit[0] >= 0 && IN.limit[0] <= 3 && IN.limit[1] >= 0 && IN.limit[1] <= 3 && IN.limit[2] >= 0 && IN.limit[2] <= 3 && IN.limit[3] >= 0 && IN.limit[3] <= 3);
+  PARENT.name = "parent"; PARENT.program = PCODE; PARENT.program_size = sizeof PCODE; PARENT.function_table = PFT; PARENT.function_flags = PFLAGS;
+  PARENT.function_offsets = POFF; PARENT.function_compressed = &PCT; PCT.first_defined = 0; PCT.num_deleted = 0;
+  PARENT.num_functions_total = 1; PARENT.num_functions_defined = 1;
+  PFLAGS[0] = 0; POFF[0].def.f_index = 0; POFF[0].def.num_arg = 0; POFF[0].def.num_local = 0; PFT[0].name = "f"; PFT[0].address = 2;
+  PROG.inherit = INH; PROG.num_inherited = 1;
+  INH[0].prog = &PARENT; INH[0].function_index_offset = (function_index_t) IN.limit[2]; INH[0].variable_index_offset = (unsigned short) IN.limit[3]; INH[0].type_mod = 0;
+  /* the caller itself runs at an arbitrary (small) offset: it may be an inherited program of the object */
+  function_index_offset = F0 = IN.limit[0]; variable_index_offset = V0 = IN.limit[1];
 #endif
   eval_cost = NSTEPS + 1;
   eval_instruction (CODE);
